@@ -1,0 +1,59 @@
+// Copyright 2022 The Go Authors. All rights reserved.
+// Use of this source code is governed by a BSD-style
+// license that can be found in the LICENSE file.
+
+//go:build verif
+
+// Machine-checked contracts for package bytesconv (//@ lines, read by
+// /verif/gocv).  Compiled only under the "verif" tag; comment-only.
+
+package bytesconv
+
+//@ pure func isdig(c byte) bool = '0' <= c && c <= '9'
+//@ rec func dval(x []byte, k int) int = k <= 0 ? 0 : 10*dval(x, k-1) + (x[k-1] - '0')
+//@ rec func pow10(k int) int = k <= 0 ? 1 : 10*pow10(k-1)
+
+//@ func underscoreOK(s []byte) (ok bool)
+//@   props C03
+//@   loop 1:
+//@     invariant 0 <= i <= len(s)
+//@     decreases len(s) - i
+
+// ParseUint, as the reader uses it (base 10, full width): a nil error means
+// the digits' mathematical value was returned — no silent wrap-around.
+//@ func ParseUint(s []byte, base int, bitSize int) (n uint64, err error)
+//@   props C03
+//@   opt uint64=int
+//@   requires base == 10 && (bitSize == 0 || bitSize == 64)
+//@   ensures err == nil ==> len(s) > 0 && (forall j int :: 0 <= j < len(s) ==> isdig(s[j])) && n == dval(s, len(s))
+//@   ensures err != nil ==> typeis(err, *NumError) && as(err, *NumError) != nil && fresh(as(err, *NumError))
+//@   ensures err != nil && as(err, *NumError).Err == ErrRange ==> n == 18446744073709551615
+//@   loop 1:
+//@     invariant 0 <= idx() <= len(s) && n == dval(s, idx()) && 0 <= n <= 18446744073709551615
+//@     invariant forall j int :: 0 <= j < idx() ==> isdig(s[j])
+//@     invariant base == 10 && cutoff == 1844674407370955162 && maxVal == 18446744073709551615 && !base0 && s === s0
+//@     decreases len(s) - idx()
+
+//@ pure func sgn(s []byte) int = (len(s) > 0 && (s[0] == '-' || s[0] == '+')) ? 1 : 0
+//@ pure func signedDigits(s []byte) bool = len(s) > sgn(s) && forall j int :: sgn(s) <= j < len(s) ==> isdig(s[j])
+//@ pure func signedVal(s []byte) int = (s[0] == '-' ? 0 - dval(s[sgn(s):], len(s)-sgn(s)) : dval(s[sgn(s):], len(s)-sgn(s)))
+
+// ParseInt as Atoi uses it (base 10, int width).
+//@ func ParseInt(s []byte, base int, bitSize int) (i int64, err error)
+//@   props C03
+//@   opt uint64=int
+//@   opt signedwrap
+//@   requires base == 10 && bitSize == 0
+//@   ensures err == nil ==> signedDigits(s) && i == signedVal(s)
+//@   ensures err != nil ==> typeis(err, *NumError) && as(err, *NumError) != nil && fresh(as(err, *NumError))
+
+//@ func Atoi(s []byte) (n int, err error)
+//@   props C03
+//@   ensures err == nil ==> signedDigits(s) && n == signedVal(s)
+//@   ensures 0 < len(s) < 19 && signedDigits(s) ==> err == nil
+//@   ensures err != nil ==> typeis(err, *NumError)
+//@   loop 1:
+//@     invariant 0 <= idx() <= len(s) && len(s) <= 18 && n == dval(s, idx()) && 0 <= n < pow10(idx())
+//@     invariant forall j int :: 0 <= j < idx() ==> isdig(s[j])
+//@     invariant len(s0) < 19 && len(s0) > 0 && s === s0[sgn(s0):] && len(s) > 0
+//@     decreases len(s) - idx()
